@@ -24,7 +24,10 @@ class QasmExporter(QCircuitExporter):
 
     def export_v3(self, _selfqc, mode: Literal["circuit", "gate"]):
         gate_qasm = f"gate {_selfqc.name} "
-        gate_qasm += " ".join(_selfqc.qubit_map.keys())
+        # one formal parameter per qubit, in index order, with the name used in the body
+        gate_qasm += " ".join(
+            _selfqc.get_key_by_index(i) for i in range(_selfqc.num_qubits)
+        )
         gate_qasm += " {\n"
         for g, ws, p in _selfqc.gates:
             if issubclass(g.__class__, gates.NopGate):
@@ -53,7 +56,10 @@ class QasmExporter(QCircuitExporter):
 
     def export_v2(self, _selfqc, mode: Literal["circuit", "gate"]):
         gate_qasm = f"gate {_selfqc.name} "
-        gate_qasm += " ".join(_selfqc.qubit_map.keys())
+        # one formal parameter per qubit, in index order, with the name used in the body
+        gate_qasm += " ".join(
+            _selfqc.get_key_by_index(i) for i in range(_selfqc.num_qubits)
+        )
         gate_qasm += " {\n"
         for g, ws, p in _selfqc.gates:
             if issubclass(g.__class__, gates.NopGate):
